@@ -40,7 +40,7 @@ impl OptimalTableau {
         let value = self.optimal_value();
         let names = self.tableau.variables();
         // Map standard-form variables back to the original model's variables:
-        // recombine a free variable's split `x = $px - $mx`, and drop the internal
+        // recombine a free variable's split `x = $p|x - $m|x`, and drop the internal
         // slack/surplus/artificial variables the standardizer/two-phase added.
         let map: IndexMap<String, f64> =
             names.iter().cloned().zip(values.iter().cloned()).collect();
@@ -50,14 +50,14 @@ impl OptimalTableau {
                 continue; // internal slack/surplus/artificial variable
             }
             // Negative half of a free-variable split: already accounted for by the positive half.
-            if let Some(rest) = name.strip_prefix("$m")
-                && map.contains_key(&format!("$p{}", rest))
+            if let Some(rest) = name.strip_prefix("$m|")
+                && map.contains_key(&format!("$p|{}", rest))
             {
                 continue;
             }
             // Positive half of a free-variable split: reconstruct the original variable.
-            if let Some(rest) = name.strip_prefix("$p")
-                && let Some(minus) = map.get(&format!("$m{}", rest))
+            if let Some(rest) = name.strip_prefix("$p|")
+                && let Some(minus) = map.get(&format!("$m|{}", rest))
             {
                 assignment.push(crate::solvers::Assignment {
                     name: rest.to_string(),
